@@ -3,11 +3,12 @@
     the extracted inductive types.  No Extract Constant.  *)
 Require Extraction.
 Require Import ExtrOcamlBasic.
-From CV Require Import Model.Qualtrim Model.Align Model.Adapters Model.Kmer.
+From CV Require Import Model.Qualtrim Model.Align Model.Adapters Model.Kmer Model.Pipeline Model.PipelineRun.
 Extraction Blacklist List String Int.
 Set Extraction KeepSingleton.
 Extraction "model.ml"
   quality_trim_index nextseq_trim_index poly_a_trim_index trim_n n_count
   quality_trimmer nextseq_trimmer
   locate thr_of match_to prefix_locate suffix_locate mkCfg mkAd
-  positions_and_kmers kmers_present match_to_prefiltered prefilter_passes finder_of.
+  positions_and_kmers kmers_present match_to_prefiltered prefilter_passes finder_of
+  run_cli process_cli best_match match_and_trim revcomp_stage.
